@@ -63,6 +63,16 @@ Definition c14_run_row (t0 : list (Z * pstate)) (ns : list (Z * pstate))
     ok_final_state pstate_beq t0 t1 cbs;
     ok_known_only t0 cbs ].
 
+(* two notifications handled by two threads at once: the outcome must be that of
+   one of the two orders (obs_ab / obs_ba carry the same observation with the
+   raised exceptions listed in that order); the clauses judge the observation *)
+Definition c14_race_row (t0 : list (Z * pstate)) (a b : Z * pstate)
+  (obs_ab obs_ba : list (Z * pstate) * list (Z * pstate) * list perr) : list bool :=
+  match c14_run_row t0 [a; b] obs_ab, c14_run_row t0 [b; a] obs_ba with
+  | c1 :: cl, c2 :: _ => (c1 || c2) :: cl
+  | _, _ => []
+  end.
+
 Definition pprog_eqb (a b : perr + (pstate * list pstate)) : bool :=
   eqb_sum perr_eqb (eqb_prod pstate_beq (eqb_list pstate_beq)) a b.
 
